@@ -32,6 +32,9 @@ META = dict(
 def _kps(nk, spacing):
   if spacing == 'u':
     return [float(i) for i in range(nk)]
+  if spacing == 'w':
+    # a huge dynamic range (gaps below float32 epsilon times the whole range), all values exactly representable
+    return ([0.0, 2.0, 33554432.0] if nk == 3 else [-33554432.0, -2.0, 0.0, 2.0, 4.0][:nk])
   gaps = [1.0, 2.0, 0.5, 1.5, 0.25][:nk - 1]
   out = [-1.0]
   for g in gaps:
@@ -475,6 +478,9 @@ def cases(tier, seed):
       add('case_pwl', nk=nk, spacing=spacing, units=units, per_unit_input=per)
   add('case_pwl', nk=3, spacing='a', units=2, per_unit_input=True, split=True)
   add('case_pwl', nk=4, spacing='a', units=1, cyclic=True)
+  add('case_pwl', nk=3, spacing='w', units=1)
+  add('case_pwl', nk=4, spacing='w', units=2, per_unit_input=True)
+  add('case_pwl', nk=4, spacing='w', units=1, cyclic=True)
   add('case_pwl', nk=3, spacing='u', units=2, cyclic=True, per_unit_input=False)
   for missing in ('learned', 'fixed'):
     add('case_pwl', nk=3, spacing='a', units=2, per_unit_input=True, missing=missing, missing_input=-2.0)
